@@ -20,9 +20,10 @@ from fractions import Fraction
 from itertools import product
 from pysmt.environment import Environment, push_env, pop_env
 from pysmt.fnode import FNode
+import pysmt.shortcuts as SHORTCUTS
 from ..core import termio
 from ..core.runner import Result, NPROC
-from ..core.refsem import (compile_term, free_symbols, Unconstrained, ArrVal)
+from ..core.refsem import compile_term, free_symbols, Unconstrained
 from ..core.termgen import interps, sort_values
 from ..core.termio import BOOL, INT, REAL, STRING, mk_type, sort_str
 
@@ -45,7 +46,8 @@ A22 = ("Array", ("BV", 2), ("BV", 2))
 
 def bounds(quick):
     return dict(
-        widths=(1, 2, 3) if quick else (1, 2, 3, 4),
+        widths=(1, 2, 3) if quick else (1, 2, 3, 4, 5),   # unary/binary/parameterised cases
+        nary_widths=(1, 2, 3) if quick else (1, 2, 3, 4),    # Min/MaxBV, n-ary BV operators, AllDifferent
         nary_max=4 if quick else 5,          # AtMostOne/ExactlyOne/AllDifferent/BVAnd/...
         minmax_max=5,
         minmaxbv_max=(lambda w: 5 if (quick and w <= 3) or (not quick) else 4),
@@ -348,10 +350,17 @@ class Case(object):
                 out.append(a[1][0])
             else:
                 out.append(a[1])
-        return ",".join(out)
+        # a run of equal kinds is one kind: the arity is not part of the root cause
+        short = []
+        for k in out:
+            if short and short[-1] in (k, k + ".."):
+                short[-1] = k + ".."
+            else:
+                short.append(k)
+        return ",".join(short)
 
     def sig(self, failure):
-        return "%s:%s(%s):%s" % (self.group, self.name, self.kinds(), failure)
+        return "%s:%s(%s):%s" % (self.group, self.name.split("[")[0], self.kinds(), failure)
 
 
 def _argdesc(a):
@@ -376,10 +385,16 @@ def ctor_cases(quick):
     B = bounds(quick)
     W = B["widths"]
     out = []
+    keys = set()
 
     def add(name, args, ref, rs, must=True, call=None, apis=("mgr", "shortcuts"), variant=""):
         for api in apis:
-            out.append(Case("ctor", name + variant, api, args, call or _attr(name), ref, rs, must))
+            if api == "shortcuts" and not hasattr(SHORTCUTS, name):
+                continue               # not every manager constructor has a shortcut
+            c = Case("ctor", name + variant, api, args, call or _attr(name), ref, rs, must)
+            if c.key not in keys:      # the 0-ary application is the same case for every sort
+                keys.add(c.key)
+                out.append(c)
 
     def binary(name, semname, sorts, must=True):
         for T in sorts:
@@ -407,7 +422,7 @@ def ctor_cases(quick):
                 add(nm, [S(T)] * n, ref if n else None, T if n else None, must=n > 0)
                 if 1 <= n <= 3:
                     add(nm, [S(T)] * n, ref, T, call=_attr_list(nm), variant="[list]")
-    for w in W:
+    for w in B["nary_widths"]:
         for n in range(0, B["minmaxbv_max"](w) + 1):
             for sign in (False, True):
                 for nm, f in (("MinBV", min), ("MaxBV", max)):
@@ -431,12 +446,28 @@ def ctor_cases(quick):
         for T in [BOOL, INT, REAL, STRING, ABB] + bvs:
             if n >= 4 and (T in (STRING, ABB) or (isbv(T) and T[1] > 3)):
                 continue
+            if n >= 3 and isbv(T) and T[1] not in B["nary_widths"]:
+                continue
             if n > 4 and T != BOOL and not (isbv(T) and T[1] <= 2):
                 continue
             add("AllDifferent", [S(T)] * n, lambda *v: len(set(v)) == len(v), BOOL)
             if n <= 3:
                 add("AllDifferent", [S(T)] * n, lambda *v: len(set(v)) == len(v), BOOL,
                     call=_attr_list("AllDifferent"), variant="[list]")
+    # ---- core n-ary constructors: the degenerate arities are rewritten (And() = TRUE, And(a) = a)
+    for n in range(0, 4):
+        add("And", [S(BOOL)] * n, lambda *v: all(v), BOOL)
+        add("Or", [S(BOOL)] * n, lambda *v: any(v), BOOL)
+        add("And", [S(BOOL)] * n, lambda *v: all(v), BOOL, call=_attr_list("And"), variant="[list]")
+        add("Or", [S(BOOL)] * n, lambda *v: any(v), BOOL, call=_attr_list("Or"), variant="[list]")
+        for T in (INT, REAL):
+            def prod(*v):
+                r = 1
+                for x in v:
+                    r = r * x
+                return r
+            add("Plus", [S(T)] * n, (lambda *v: sum(v)) if n else None, T if n else None, must=n > 0)
+            add("Times", [S(T)] * n, prod if n else None, T if n else None, must=n > 0)
     # ---- Abs
     for T in (INT, REAL):
         add("Abs", [S(T)], lambda a: a if a >= 0 else -a, T, apis=("shortcuts",))
@@ -464,7 +495,7 @@ def ctor_cases(quick):
                 (lambda w, cnt: lambda a, c: bv_concat([a] * cnt, [w] * cnt))(w, cnt) if ok else None,
                 BV(w * cnt) if ok else None, must=ok)
         add("BVRepeat", [S(BV(w))], lambda a: a, BV(w), variant="[default]")
-        for n in range(0, B["nary_max"] + 1):
+        for n in range(0, B["nary_max"] + 1 if w in B["nary_widths"] else 3):
             for nm, f in (("BVAnd", lambda a, b: a & b), ("BVOr", lambda a, b: a | b),
                           ("BVAdd", lambda a, b: a + b), ("BVMul", lambda a, b: a * b)):
                 def ref(*v, f=f, w=w):
@@ -558,21 +589,6 @@ def infix_cases(quick):
 
     def add(name, args, call, ref, rs, must):
         out.append(Case("infix", name, "fnode", args, call, ref, rs, must))
-
-    def binary(name, call, semname, sorts, lits=True, rcall=None, rname=None, flip_ref=False):
-        """x op y, x op literal; reflected: literal op x through Python's dispatch"""
-        for T in sorts:
-            sem = SEM[semname](T)
-            f, rs = sem if sem else (None, None)
-            add(name, [S(T), S(T)], call, f, rs, sem is not None)
-            if lits:
-                for v, ok in literals(T):
-                    add(name, [S(T), L(v)], call, f if ok else None, rs if ok else None,
-                        sem is not None and ok)
-            if rcall is not None:
-                for v, ok in literals(T):
-                    add(rname, [L(v), S(T)], rcall, f if ok else None, rs if ok else None,
-                        sem is not None and ok)
 
     # ---- Python operators
     for dn, pyop, semname, rdn in PYOPS:
@@ -756,10 +772,7 @@ def run_case(case, res, seed=0):
 
 def _run_case(env, case, res, seed):
     m = env.formula_manager
-    if case.api == "shortcuts":
-        import pysmt.shortcuts as api
-    else:
-        api = m
+    api = SHORTCUTS if case.api == "shortcuts" else m
     prefix = "xyz"[seed % 3]
     pyargs, symsorts, names = [], {}, []
     for i, a in enumerate(case.args):
@@ -790,14 +803,15 @@ def _run_case(env, case, res, seed):
         return ("not-a-formula", "%s returned %r" % (case.key, f))
     try:
         fs, fn = compile_term(f)
-        shown = termio.short(termio.dump(f))
+        dumped = termio.dump(f)
+        shown = termio.short(dumped)
         extra = set(free_symbols(f)) - set(symsorts)
     except Exception as e:
         res.outcome(label + ":ILL-FORMED")
         return ("ill-formed", "%s built a term without meaning in the reference semantics: %s: %s"
                 % (case.key, type(e).__name__, e))
     if extra:
-        return ("symbol", "%s built %s which mentions %s" % (case.key, shown, sorted(extra)))
+        return ("symbol", "%s built %s which mentions %s" % (case.key, shown, sorted(extra)), dumped)
     if case.rs is None:
         # accepted although the table gives it no meaning: nothing to compare with
         res.outcome(label + ":accepted-outside-domain")
@@ -806,7 +820,7 @@ def _run_case(env, case, res, seed):
     if fs != case.rs:
         res.outcome(label + ":WRONG-SORT")
         return ("sort", "%s built %s of sort %s, the named function has sort %s"
-                % (case.key, shown, sort_str(fs), sort_str(case.rs)))
+                % (case.key, shown, sort_str(fs), sort_str(case.rs)), dumped)
     n_def = n_undef = 0
     bad = None
     for I in interps(symsorts, DOM):
@@ -831,7 +845,7 @@ def _run_case(env, case, res, seed):
     res.count("interpretations_undefined", n_undef)
     if bad:
         res.outcome(label + ":WRONG")
-        return bad
+        return bad + (dumped,)
     if n_def == 0:
         res.outcome(label + ":vacuous-all-undefined")
         res.count("vacuous")
@@ -846,9 +860,6 @@ def _showI(I):
     return "{%s}" % ", ".join("%s=%s" % (k, _show(v)) for k, v in sorted(I.items()))
 
 
-_SHARDS = {}
-
-
 def run_shard(arg):
     quick, idxs, seed = arg
     cs = all_cases(quick)
@@ -857,7 +868,10 @@ def run_shard(arg):
         c = cs[i]
         r = run_case(c, res, seed)
         if r is not None:
-            res.violation(c.group, c.sig(r[0]), r[1], {"key": c.key, "quick": quick})
+            # the key identifies the table row (replay re-runs exactly that row); the rest is for the reader
+            res.violation(c.group, c.sig(r[0]), r[1],
+                          {"key": c.key, "quick": quick, "function": c.name, "api": c.api,
+                           "args": [_argdesc(a) for a in c.args], "built": r[2] if len(r) > 2 else None})
     return res
 
 
@@ -900,7 +914,7 @@ def run(ctx):
     ctx.coverage["must_build_cases"] = sum(1 for c in sel if c.must)
     ctx.coverage["bounds"] = {"bv_widths": list(B["widths"]), "nary_max": B["nary_max"],
                               "minmax_max": B["minmax_max"], "int_pool": list(INT_POOL),
-                              "real_pool": [str(x) for x in REAL_POOL],
+                              "real_pool": [str(x) for x in REAL_POOL], "nary_bv_widths": list(B["nary_widths"]),
                               "concat_widths": list(B["concat_widths"]), "sbv_widths": list(B["sbv_widths"])}
 
 
